@@ -83,7 +83,7 @@ func c10Run(t *testing.T, s *sim.Scn) *sim.Outcome {
 		return o
 	}
 	cands := [][]c10Batch{{}}
-	restarts, crashes, rejected, dupContent, handed := 0, 0, 0, 0, 0
+	restarts, crashes, rejected, dupContent, handed, diskErrs := 0, 0, 0, 0, 0, 0
 
 	describe := func() string {
 		var sb strings.Builder
@@ -166,6 +166,14 @@ func c10Run(t *testing.T, s *sim.Scn) *sim.Outcome {
 			kind = strings.TrimPrefix(kind, "crash-")
 			crashK = int(op.A % 2)
 		}
+		// diskerr-submit: the datastore refuses the write of this submission (disk full, I/O error). The
+		// submitter is told so: the submission is a rejected one, it leaves no trace, and everything the
+		// property says about the accepted batches keeps holding afterwards.
+		diskErr := false
+		if strings.HasPrefix(kind, "diskerr-") {
+			kind = strings.TrimPrefix(kind, "diskerr-")
+			diskErr = true
+		}
 		switch kind {
 		case "restart":
 			restarts++
@@ -201,10 +209,21 @@ func c10Run(t *testing.T, s *sim.Scn) *sim.Outcome {
 			if crashK >= 0 {
 				disk.Arm(crashK)
 			}
+			refusedBefore := disk.Rejected
+			if diskErr {
+				disk.FailNextWrites(1)
+			}
 			_, err := seq.SubmitBatchTxs(ctx, coresequencer.SubmitBatchTxsRequest{Id: id, Batch: &coresequencer.Batch{Transactions: b}})
 			fired := false
 			if crashK >= 0 {
 				fired = disk.Disarm()
+			}
+			if diskErr {
+				disk.FailNextWrites(0) // a submission that never reached the disk leaves the fault unused
+			}
+			refused := disk.Rejected > refusedBefore
+			if refused {
+				diskErrs++
 			}
 			mustReject := kind == "submit-foreign"
 			var next [][]c10Batch
@@ -220,6 +239,14 @@ func c10Run(t *testing.T, s *sim.Scn) *sim.Outcome {
 				case mustReject || (full && len(b) > 0):
 					if err != nil {
 						next = append(next, c) // consistent: rejected, unchanged
+					}
+				case refused:
+					// the disk refused the write: told to the submitter it is a rejection; kept quiet it is an
+					// acknowledged batch like any other (and the final drain will look for it)
+					if err != nil {
+						next = append(next, c)
+					} else {
+						next = append(next, append(c10Clone(c), b))
 					}
 				case len(b) == 0:
 					next = append(next, c)
@@ -341,6 +368,7 @@ func c10Run(t *testing.T, s *sim.Scn) *sim.Outcome {
 	o.Count("restart", restarts)
 	o.Count("crash-inside-op", crashes)
 	o.Count("rejected-submission", rejected)
+	o.Count("fault:disk-refuses-submission-write", diskErrs)
 	o.Count("identical-content-queued-twice", dupContent)
 	o.Count("batches-handed-out", handed)
 	o.NonTrivial = handed >= 2 && restarts+crashes >= 2
@@ -376,6 +404,7 @@ func c10Gen(r *rand.Rand, tier string) *sim.Scn {
 	}
 	n := 3 + r.IntN(40)
 	pCrash := r.IntN(25)
+	pDiskErr := []int{0, 0, 10, 25}[r.IntN(4)]
 	pDistinct := r.IntN(2) // 0: few contents (identical batches likely), 1: also few but different mix
 	for i := 0; i < n; i++ {
 		var op sim.Op
@@ -397,6 +426,8 @@ func c10Gen(r *rand.Rand, tier string) *sim.Scn {
 		if (op.K == "submit" || op.K == "next") && r.IntN(100) < pCrash {
 			op.K = "crash-" + op.K
 			op.A = r.Int64N(2)
+		} else if op.K == "submit" && r.IntN(100) < pDiskErr {
+			op.K = "diskerr-submit"
 		}
 		s.Ops = append(s.Ops, op)
 	}
